@@ -27,6 +27,12 @@ NOT_APPLICABLE = {
     "C20": "Predicate over credential strings and socket peer credentials: a pure function of input and configuration, only reachable through real sockets; not a simulation target (DESIGN.md §6).",
     "C17": "BgpAnalyser::analyse is a pure function of (ROAs, announcements, resources); nothing to schedule or fault - a differential/property test is the right tool, not a simulator (DESIGN.md §6).",
 }
+CLAIMED["C05"] = dict(
+    category="exploration",
+    technique="deterministic simulation: seeded histories with deliberately invalid requests against reached CA states, reference-model verdicts, before/after state digests",
+    text="Seeded search over request contents x reached CA states on the real code; the model's accept/refuse verdict (iff of the statement) is compared with Krill's for every request, refusals are checked to leave configuration, stored object set and repository byte-identical with exactly one error record in the audit log. Closest to model-based testing of all properties; claimed at exploration level only.",
+    design_ref="DESIGN.md §5 C05",
+)
 PENDING = {}
 
 def main():
